@@ -3,6 +3,8 @@ package chat
 import (
 	"fmt"
 	"io"
+	"maps"
+	"slices"
 	"time"
 
 	"go.minekube.com/gate/pkg/edition/java/proto/util"
@@ -71,8 +73,9 @@ func (p *KeyedPlayerCommand) Encode(c *proto.PacketContext, wr io.Writer) error 
 	if err != nil {
 		return err
 	}
-	for a, b := range p.Arguments {
-		// What annoys me is that this isn't "sorted"
+	// sorted, so that the same packet always encodes to the same bytes
+	for _, a := range slices.Sorted(maps.Keys(p.Arguments)) {
+		b := p.Arguments[a]
 		err = util.WriteString(wr, a)
 		if err != nil {
 			return err
